@@ -50,7 +50,7 @@ def parse_case(c):
     if cmd == "c19.file":
         d["lim"] = cur.num()
     elif cmd == "c19.gelf":
-        d["lim"] = cur.num(); cur.skip(6)
+        d["lim"] = cur.num(); d["failfirst"] = cur.nxt() == "1"; cur.skip(6)
     elif cmd == "c19.kafka":
         d["lim"] = cur.num(); d["bsz"] = cur.num(); cur.skip(3)
     elif cmd == "c19.http":
@@ -99,6 +99,7 @@ def c19_classify(c, i):
     if any(b and all(k == 2 for (k, _, _, _) in b) for b in d["batches"]): out.append("all-child-parent-batch")
     if d["split"]: out.append("split")
     if d["raw"]: out.append("raw-encoder")
+    if d.get("failfirst"): out.append("gelf-endpoint-down-first")
     if d["lim"] <= 16: out.append("buffer-replaced")
     for s in sorted(set(d["script"])):
         out.append("status=%d" % s)
@@ -124,6 +125,12 @@ def sig_loki_bad_timestamp(c, i, m, k):
     return bool(d) and d["sink"] == "loki" and any(rt and rt[0] == b"\x01" for b in d["batches"] for (kind, _, _, rt) in b if kind != 2)
 
 
+def sig_gelf_retry(c, i, m, k):
+    """gelf: the batch is sent again after a failed attempt (formatEvent already rewrote the events in place)"""
+    d = parse_case(c)
+    return bool(d) and d["sink"] == "gelf" and d.get("failfirst", False)
+
+
 CFG = {
     "manifest": {
         "text": "Proof: Lean theorems (Props/C19.lean) state, for the executable model of Batch.ForEach and of the out functions of the file, http, elasticsearch, splunk, loki, gelf and kafka outputs, that unframing the payload built for a batch gives the deliverable events once each, in order (under the stated encoder assumption), that the payload does not depend on the reused worker buffer, that kafka record values are disjoint views, and that the 413 split recursion delivers every event that is not refused on its own; the model is tied to the real plugins by running both on generated batches on every run.",
@@ -136,6 +143,7 @@ CFG = {
     "signatures": {
         "raw_control_byte": sig_raw_control_byte,
         "loki_bad_timestamp": sig_loki_bad_timestamp,
+        "gelf_retry": sig_gelf_retry,
     },
     "rule": "exhaustive: every status script over {200,413} answering every request of the split recursion for batches of 1..4 events (thorough: 1..5, plus {200,413,500,400} for 1..3), through elasticsearch and http alternately; then per sink random batches of 0..8 events from internal/jt trees with adversarial routing values (quotes, newlines, NUL, invalid UTF-8, non-strings), child / child-parent kinds, 1..3 successive batches through one worker, buffer limits 0..4096, PRNG status scripts with retries; then a malformed stream (raw control bytes inside JSON strings, Loki timestamps that are not UnixNano); distinct = distinct case line; non-trivial = at least one deliverable event",
     "corr_name": "Payload.{fileRun,gelfRun,kafkaRun,httpLikeRun ∘ (httpOut|esOut|splunkOut|lokiOut)} = bytes written / records produced / request bodies and statuses observed from the real plugins' out functions",
